@@ -620,7 +620,14 @@ func (r *stateResolverV2) calculateFullAuthChainAndConflictedSubgraph(
 			conflictedSubgraphEventIDs := append(slices.Clone(curr.visiting), curr.pdu.EventID())
 			fmt.Printf("found conflicted subgraph %v\n", conflictedSubgraphEventIDs)
 			for _, eventID := range conflictedSubgraphEventIDs {
-				conflictedSubgraph.Insert(r.authEventMap[eventID])
+				// the path starts at a state event, which need not be listed among the auth events
+				ev, ok := r.authEventMap[eventID]
+				if !ok {
+					ev, ok = r.conflictedEventMap[eventID]
+				}
+				if ok {
+					conflictedSubgraph.Insert(ev)
+				}
 			}
 		}
 
